@@ -172,7 +172,7 @@ def run(tier, rep):
     if quick:
         parts = [("d4", {"RcvSizes": full, "Depth": 4, "After": 2}), ("d5", {"RcvSizes": "{1, 1200}", "Depth": 5, "After": 1})]
     else:
-        parts = [("d5", {"RcvSizes": full, "Depth": 5, "After": 2}), ("d6", {"RcvSizes": full, "Depth": 6, "After": 2})]
+        parts = [("d5", {"RcvSizes": full, "Depth": 5, "After": 2}), ("d6", {"RcvSizes": "{1, 1200}", "Depth": 6, "After": 1})]
     wd = vlib.workdir(PID)
     for part, c in parts:
         consts = dict(TRACE_CONSTS, SegCases="<- GenSegCases", **c)
